@@ -42,14 +42,19 @@ let step _ cs os =
   if has_fwd && get f "k" <> "async" then failwith "forward steps on a client without forward_message";
   if not (ClientMux.c04_wf case) then failwith "case is not well-formed (generator)";
   let out = ref [] in
-  let model = ClientMux.model_C04 case in
-  if not (ClientMux.ok_C04 case model) then out := "BAD\tside=model\tclause=ok_C04(model)=false" :: !out;
+  (* sub=0: a WebSocket client on which nobody subscribed to notifications *)
+  let nosub = (get_opt f "sub" = Some "0") in
+  if nosub && not ws then failwith "sub=0 on a client without a notification subscriber";
+  let model_of = if nosub then ClientMux.model_C04_nosub else ClientMux.model_C04 in
+  let ok = if nosub then ClientMux.ok_C04_nosub else ClientMux.ok_C04 in
+  let model = model_of case in
+  if not (ok case model) then out := "BAD\tside=model\tclause=ok_C04(model)=false" :: !out;
   (match get_opt o "crash" with
    | Some c -> out := ("BAD\tside=impl\tclause=crash:" ^ c) :: !out
    | None ->
      let impl = { ClientMux.o_out = Stdlib.List.map parse_oc (split_on ',' (get o "out"));
                   o_sub = nlist (get o "sub"); o_ids = nlist (get o "ids") } in
-     if not (ClientMux.ok_C04 case impl) then out := "BAD\tside=impl\tclause=ok_C04" :: !out;
+     if not (ok case impl) then out := ("BAD\tside=impl\tclause=ok_C04" ^ (if nosub then "_nosub" else "")) :: !out;
      (match get_opt o "gate" with
       | Some g when g <> "ok" -> out := ("BAD\tside=impl\tclause=schedule-not-realised:" ^ g) :: !out
       | _ -> ());
